@@ -188,6 +188,9 @@ def check_property(prop, tier='quick', seed=0, jobs=None, update_baseline=False)
             crashes.append('canary clause proved (vacuous pre-state?): %s' % name)
             continue
         bad = [o for o in cl['items'] if o['verdict'] in ('refuted', 'unknown')]
+        if any(o['backend'] == 'solver-disagreement' for o in bad):
+            crashes.append('solvers disagree (z3 %s: unsat, z3 4.8.12: sat) on %s' % ('5.x', name))
+            continue
         rep = [o for o in bad if o.get('reproduced')]
         k = next((k for k in known if k.get('obligation', '').strip('*') and k.get('obligation', '').strip('*') in name), None)
         if k is not None:
@@ -307,6 +310,9 @@ def write_evidence(prop, tier, seed, reg, results, clauses, bounded, violations,
         'known_findings': [{'obligation': n, 'what': k.get('what')} for k, n in known_hits],
         'violations': [{'obligation': n, 'replay': r, 'reproduced_on_real_code': rep} for n, r, rep, _ in violations],
         'samples': samples,
+        'cross_check': {k: sum(r.get('stats', {}).get(k, 0) for r in results) for k in ('cross_checked', 'cross_agree', 'cross_undecided', 'cross_disagree')},
+        'slowest_queries': [{'obligation': o['name'], 'solver_s': o['seconds'], 'backend': o['backend']}
+                            for o in sorted((o for c in clauses.values() for o in c['items']), key=lambda o: -o['seconds'])[:5]],
         'explanation': 'contract-based deductive verification: VCs generated from the AST of the real source by pyvc, discharged by z3',
     }
     if n_ob == 0 and bounded:
